@@ -208,6 +208,27 @@ func generate(pvgen string, seed uint64, n, k int, profiles []string, variants s
 			}
 		}
 	}
+	// one hand-made group per template with a Debug option: deep nesting, every parse traced
+	dr := rand.New(rand.NewPCG(seed*7919+3, 0x64656570))
+	vlist := strings.Split(variants, ",")
+	if strings.TrimSpace(variants) == "" {
+		vlist = nil
+		for m := 0; m < 8; m++ {
+			vlist = append(vlist, fmt.Sprintf("o0g%dl%db%d", m>>2&1, m>>1&1, m&1))
+		}
+	}
+	for _, v := range vlist {
+		v = strings.TrimSpace(v)
+		if len(v) != 8 || v[1] != '0' {
+			continue
+		}
+		g, err := deepDebugGroup(gid, v, k, dr)
+		if err != nil {
+			return nil, err
+		}
+		groups = append(groups, g)
+		gid++
+	}
 	return groups, nil
 }
 
